@@ -382,6 +382,9 @@ func (p *program) parseArgs(args []string) error {
 	if _, err := linter.ParseGoVersion(p.goVersion); err != nil {
 		return fmt.Errorf("-go: %w", err)
 	}
+	if p.concurrency < 1 {
+		return fmt.Errorf("-concurrency: want a positive number, got %d", p.concurrency)
+	}
 
 	p.packages = p.flagSet.Args()
 	p.filters.enable = strings.Split(*enable, ",")
